@@ -18,8 +18,8 @@ import DeepModel.Proofs.ActionCtx
 namespace C10
 open ActionCtx Extracted.Limiter Extracted.Expr
 
-/-- **gate** — every hit that fired is a hit of the history at which the limits allowed it and the condition
-    evaluated to true (did not fail, and its value's text is truthy) — or no condition is configured. -/
+/-- **gate** — every hit that fired is a hit of the history at which the condition evaluated to true (did not fail,
+    and its value's text is truthy) — or no condition is configured. -/
 theorem c10_gate (c : Cfg) (hs : List Hit) (hco : ∀ h ∈ hs, h.coherent) :
     ∀ (st : Stats), ∀ h ∈ (runFrom c st hs).2, h ∈ hs ∧ condTrue c h = true := by
   induction hs with
@@ -55,7 +55,7 @@ theorem c10_gate_failing (c : Cfg) (hs : List Hit) (hco : ∀ h ∈ hs, h.cohere
     Bool.not_eq_eq_eq_not, Bool.not_true] at this
   exact ⟨this.1.1, this.2⟩
 
-/-- what "true" means for a value that is not a bool: its text, lower-cased, is one of the five documented words
+/-- tripwire: what "true" means for a value that is not a bool: its text, lower-cased, is one of the five documented words
     (`True` → `true`); nothing else — in particular not `on`, `2`, `false`, a list, `None`. -/
 theorem c10_truth_words (s : String) :
     str2bool s = true ↔ Py.lower s ∈ ["yes", "true", "t", "1", "y"] := by
@@ -135,6 +135,7 @@ theorem c10_limits_first (c : Cfg) (st : Stats) (h : Hit) (hl : Limiter.allowed 
   unfold Extracted.Expr.canTrigger
   simp
 
+/-- model lemma: number of oracle calls of one `can_trigger` -/
 theorem c10_eval_count (c : Cfg) (st : Stats) (h : Hit) :
     (check c st h).2 = (if Limiter.allowed c.lim st h.ts && !blank c.condition then 1 else 0) :=
   check_evals c st h
@@ -169,45 +170,87 @@ theorem c10_scope_agent_invisible {V R : Type} (f : Frame V) (a a' : Agent V)
     oracle (handlerEnv f a) e = oracle (handlerEnv f a') e := by
   rw [c10_scope, c10_scope]
 
-/-- … a name bound only in the agent's module is a NameError, a host-module global resolves to its value, and a
-    local shadows a global, as at that line of the program. -/
-theorem c10_scope_names {V : Type} (f : Frame V) (a : Agent V) (builtins : String → Option V) (n : String) :
-    (f.locals n = none → f.globals n = none → builtins n = none → resolve (handlerEnv f a) builtins n = none) ∧
-    (∀ v, f.locals n = none → f.globals n = some v → resolve (handlerEnv f a) builtins n = some v) ∧
-    (∀ v, f.locals n = some v → resolve (handlerEnv f a) builtins n = some v) := by
+/-- … and a name occurring at the top level of the expression (hypothesis `nested = false`: not inside a lambda body
+    or a generator expression of the expression) resolves exactly as at that line of the program: the local if there
+    is one, else the host module's global, else the builtin, else NameError — a name bound only in the agent's
+    modules is a NameError.  `_partial`: see `c10_nested_scope_witness` for why the hypothesis is needed. -/
+theorem c10_scope_names_partial {V : Type} (f : Frame V) (a : Agent V) (builtins : String → Option V) (n : String)
+    (nested : Bool) (hn : nested = false) :
+    resolveAt nested (handlerEnv f a) builtins n = visibleAtLine f builtins n := by
+  subst hn
   rw [c10_scope]
-  refine ⟨?_, ?_, ?_⟩
-  · intro h1 h2 h3; simp [resolve, h1, h2, h3]
-  · intro v h1 h2; simp [resolve, h1, h2]
-  · intro v h1; simp [resolve, h1]
+  simp only [resolveAt, Bool.false_eq_true, if_false, resolve, visibleAtLine]
 
-/-- there is exactly one place in the agent that evaluates text: `evaluate_expression` — conditions, watches, log
-    fields, metric values and label expressions all go through it, hence through the environment above. -/
+/-- inside a nested scope the frame's locals are NOT seen (known finding `C10/nested-scope-hides-locals`): a local
+    `a` of the paused frame used as `(lambda q: q + a)(1)` is a NameError although `a` is visible at that line; and a
+    local shadowing a global yields the GLOBAL's value there.  Negation of the unrestricted statement, on a witness. -/
+theorem c10_nested_scope_witness :
+    let f : Frame Nat := ⟨fun n => if n = "g" then some 1 else none, fun n => if n = "a" ∨ n = "g" then some 5 else none⟩
+    let ag : Agent Nat := ⟨fun _ => none, fun _ => none⟩
+    let b : String → Option Nat := fun _ => none
+    visibleAtLine f b "a" = some 5 ∧ resolveAt true (handlerEnv f ag) b "a" = none ∧
+    visibleAtLine f b "g" = some 5 ∧ resolveAt true (handlerEnv f ag) b "g" = some 1 := by
+  decide
+
+/-- tripwire: there is exactly one place in the agent that evaluates text: `evaluate_expression` — conditions,
+    watches, log fields, metric values and label expressions all go through it, hence through the environment above. -/
 theorem c10_single_eval_site :
     evalSites = ["src/deep/processor/context/trigger_context.py:TriggerContext.evaluate_expression:eval"] := by decide
 
-/-- every failure of an expression is caught where it is evaluated and becomes the result object
+/-- tripwire: every failure of an expression is caught where it is evaluated and becomes the result object
     (`except BaseException as e: return e`), so no failure escapes into another expression's evaluation. -/
 theorem c10_eval_catches_all : evalCatches = Py.Exn.base ∧ evalReturnsException = true := by decide
 
-/-- **contained** — each expression of an action (watch, log field, metric / label expression) gets its own
-    result, computed from the oracle's answer for that expression only: changing the outcome of expression `i`
-    (for instance making it fail) changes no other position; a failing expression's result carries its error
-    (type = exception class, value = message). -/
-theorem c10_contained (ev ev' : String → Outcome) (es : List String) (j : Nat)
+/-- model lemma: **contained** — the result reported for the j-th expression of an action (watch, log field) is a
+    function of the oracle's answer for THAT expression and of its own collection circumstances only: changing the
+    outcome of another expression (making it fail, say) changes position j at most through the shared variable budget
+    (`col`), never through evaluation. -/
+theorem c10_contained (src : String) (ev ev' : String → Outcome) (col : Nat → Collect) (es : List String) (j : Nat)
     (hj : ∀ e, es[j]? = some e → ev e = ev' e) :
-    (evalAll ev es)[j]? = (evalAll ev' es)[j]? := by
+    (evalAll src ev col es)[j]? = (evalAll src ev' col es)[j]? := by
   unfold evalAll
-  simp only [List.getElem?_map]
-  cases h : es[j]? with
-  | none => rfl
-  | some e => simp [resultOf, hj e h]
+  have gen : ∀ (es : List String) (i j : Nat), (∀ e, es[j]? = some e → ev e = ev' e) →
+      (evalFrom src ev col i es)[j]? = (evalFrom src ev' col i es)[j]? := by
+    intro es
+    induction es with
+    | nil => intro i j _; rfl
+    | cons e es ih =>
+      intro i j h
+      cases j with
+      | zero => simp [evalFrom, h e (by simp)]
+      | succ j => simpa [evalFrom] using ih (i + 1) j (by intro x hx; exact h x (by simpa using hx))
+  exact gen es 0 j hj
 
-theorem c10_failing_result (ev : String → Outcome) (es : List String) (j : Nat) (e : String)
-    (he : es[j]? = some e) :
-    (evalAll ev es)[j]? = some ⟨e, (ev e).failed, (ev e).ty, (ev e).text⟩ ∧ (evalAll ev es).length = es.length := by
-  unfold evalAll
-  simp [List.getElem?_map, he, resultOf]
+/-- over the translated `eval_watch`: an expression whose value cannot be recorded because the action's variable
+    budget is spent (by the frame, by earlier expressions — they share one cache) is reported with THAT error and no
+    variable; its text (the log string used for a log field) is still the text of its own value.  Budget exhaustion
+    is the collection bound of C05, reported on the expression it hits — not a failure spreading between expressions. -/
+theorem c10_budget_error_is_own (src e : String) (o : Outcome) :
+    evalWatch src e o true none = ⟨src, e, false, some "variable limit reached", "", "", o.text⟩ := by
+  simp [evalWatch]
+
+/-- over the translated `eval_watch`, for an expression that evaluates (hypothesis `o.failed = false`) and is
+    collected within budget: a good result whose variable is the value — type name and text of the value.
+    `_partial`: for a FAILING expression see `c10_failing_watch_is_value_witness`. -/
+theorem c10_watch_result_partial (src e : String) (o : Outcome) (_h : o.failed = false) :
+    evalWatch src e o false none = ⟨src, e, true, none, o.ty, o.text, o.text⟩ := by
+  simp [evalWatch]
+
+/-- a failing expression's error IS carried by its result — the variable's type is the exception class, its value
+    and the log string are the message … -/
+theorem c10_failing_watch_carries_error (src e : String) (o : Outcome) (_h : o.failed = true) :
+    (evalWatch src e o false none).ty = o.ty ∧ (evalWatch src e o false none).value = o.text ∧
+    (evalWatch src e o false none).logStr = o.text := by
+  simp [evalWatch]
+
+/-- … but as a GOOD result (a variable id, no error text), not as the error result the statement speaks of
+    (known finding `C10/failing-watch-is-a-value`): `evaluate_expression` returns the exception object as the value,
+    so `eval_watch` collects it like any value.  Negation of "a failing expression yields an error result", on a
+    witness. -/
+theorem c10_failing_watch_is_value_witness :
+    let o : Outcome := ⟨true, true, "NameError", "name 'nope' is not defined", .other⟩
+    (evalWatch "WATCH" "nope" o false none).hasResult = true ∧ (evalWatch "WATCH" "nope" o false none).error = none := by
+  decide
 
 /-! ### non-vacuity -/
 
